@@ -149,7 +149,7 @@ def classify_init_exception(exc, start, end, pm, pd_, spans_ny):
     return "fail", name + "|other"
 
 
-def check_schedule(cs, start, end, pmd, hmd_cfg, matcd, off, init_sc_time=None):
+def check_schedule(cs, start, end, pmd, hmd_cfg, matcd, off):
     """Evaluate schedule_ok on a ClockStruct. Returns list of (clause_id, clause, detail) and
     a dict of observations."""
     bad = []
@@ -587,9 +587,6 @@ def run_run_case(case, seed):
                 fail("row-written-for-unsimulated-day", CL_ROW, f"row {tt} is non-zero but day {tt} was never simulated")
         # final_stats: one row per ended season, step = day the season ended
         fs = model._outputs.final_stats
-        if len(fs) != len(season_end) + sum(1 for _ in []):
-            # seasons may also be flagged outside the growing season; only compare those we saw end in season
-            pass
         for k, (te, why, dp) in season_end.items():
             if k not in fs.index:
                 fail("final-stats-row-missing", CL_END, f"season {k} ended at t={te} ({why}) but final_stats has no row {k}")
